@@ -33,7 +33,8 @@ RULE = ("three streams. handler: 1-4 in-memory connections through the real hand
         "requests, then shutdown()+server_close(). lifecycle: ALL API-legal histories over {construct, serve in a thread, "
         "request answered, request in flight, shutdown, server_close} up to the tier's length bound (quick 5, thorough 7) "
         "per server kind/pool/family, plus construction on a taken address; each call under a 20 s watchdog. "
-        "Non-trivial: >= 2 connections, or a history that stops a server. Distinct by canonical hash of the case.")
+        "Non-trivial: >= 2 connections, or a history that stops a server. Distinct by canonical hash of the case."
+        ' Added after the seeded rounds: `long_clen` (fewer bytes than announced, then a half-close) and `abandon` (a call of the slow method whose client leaves without reading) connections in the socket stream.')
 EXHAUSTIVE = ("lifecycle stream only: every API-legal history of length <= 5 (quick) / 7 (thorough) over the six calls for "
               "each of 8 server configurations (not the unbounded property: that is the theorems' job)")
 TRUSTED = ["modelled, not verified: socketserver (accept loop, serve_forever/shutdown protocol, initially clear __is_shut_down "
@@ -312,6 +313,11 @@ class Sockets(pipeline.Stream):
                     n = [1, rng.randint(2, 6), rng.choice([8, 12, 16])][r % 3] if tier == "quick" else rng.choice([1, 2, 3, 4, 5, 6, 8, 10, 12, 16])
                     kinds = KINDS_MODEL + ["slow", "slow", "long_clen", "abandon"] + (KINDS_RAW if r % 2 else [])
                     salt = "s%d" % c
+                    if n > 6:
+                        # a client that half-closes while the listen backlog (socketserver: 5) is overflowing is reset by the
+                        # kernel before the server ever accepts it: an artefact of TCP, not of the library (measured: 11 of 96
+                        # such connections with 16 concurrent clients, none with <= 8)
+                        kinds = [k for k in kinds if k != "long_clen"]
                     conns = [gen_conn(rng, i, kinds, salt) for i in range(n)]
                     followups = [gen_conn(rng, 100 + i, ["call", "call", "notify", "invalid_json", "batch"], salt) for i in range(2)]
                     if r % 2 == 0:
@@ -319,6 +325,14 @@ class Sockets(pipeline.Stream):
                     followups.append(gen_conn(rng, 103, ["call"], salt))
                     cases.append({"server": kind, "pool": pool, "family": family, "conns": conns, "followups": followups,
                                   "msched": [rng.randrange(64) for _ in range(rng.randint(0, 120))]})
+                # on every configuration: a client that leaves without reading (the handler's write fails, the error hook runs),
+                # and a truncated body, next to a good call; then service must go on
+                c += 1
+                salt = "f%d" % c
+                cases.append({"server": kind, "pool": pool, "family": family,
+                              "conns": [gen_conn(rng, 0, ["abandon"], salt), gen_conn(rng, 1, ["call"], salt), gen_conn(rng, 2, ["long_clen"], salt)],
+                              "followups": [gen_conn(rng, 100, ["call"], salt), gen_conn(rng, 101, ["fail"], salt), gen_conn(rng, 102, ["call"], salt)],
+                              "msched": []})
         return cases
 
     def run_impl(self, case):
